@@ -2,6 +2,8 @@ import GrmVerif.Lemmas.Total
 import GrmVerif.Lemmas.Analyses2
 import GrmVerif.Lemmas.Recog
 import GrmVerif.Lemmas.FollowsImpl
+import GrmVerif.Lemmas.MaxCostsUB
+import GrmVerif.Lemmas.MinSentenceTerm
 /-!
 # C17 — grammar analyses (FIRST, FOLLOW, nullable, reachability, costs) are exact
 
@@ -164,6 +166,247 @@ theorem impl_equals_reference (G : Grammar) (hwf : G.wf = true) :
   · intro r t
     rw [Bool.eq_iff_iff, h3 r t, ← a3 r t]; simp
 
+/-! ### `has_path`, `rule_min_costs`, `rule_max_costs`, `min_sentence` themselves
+
+`Model/CostsImpl.lean` transcribes the four functions of grammar.rs: the work-list sweeps of `has_path`
+with its `seen`/`todo` vectors and the early `return true`; the rounds of `rule_min_costs` (per rule the
+cheapest production all of whose rules are done, `break` at the first rule that is not, `checked_add` with
+its `expect`, the two update loops, the final `all done` test); `rule_max_costs` (the `has_path(r, r)` marking
+loop, the sweeps with `hs_cmplt`/`hs_noncmplt`, `break 'a` at a rule of cost `u16::MAX`, the two panics, the
+three `debug_assert!`s — checked when `dbg` is set); `min_sentence` (the closure `cheapest_prod` with its
+`saturating_add`, the explicit stack of `(pidx, sym_idx)` frames). Every unbounded loop takes fuel; a panic
+is the outcome `panic`. The driver prints what these models compute next to the real code's answers on every
+generated grammar (line `Mc` against the harness's `Ic`). -/
+
+/-- **`has_path` is exact and terminates.** For every well-formed grammar, every rule `A` of it and every
+`T`, the model of `has_path(A, T)` does not panic, needs at most `nrules + 1` sweeps of its outer loop
+(every sweep but the last moves a rule into `seen`) — with that or any larger fuel it returns the same
+`b` — and `b` is true exactly when `T` is reachable from `A` through one or more production steps
+(`Reach`, the relation `has_path_spec` is about); equivalently `b` is the answer of the verified reference
+`reach`. (`A < nrules` says that `from` is a rule index of this grammar; for any other value
+`todo[from] = true` is out of bounds: `has_path_impl_out_of_range`.) -/
+theorem has_path_impl_exact (G : Grammar) (hwf : G.wf = true) (A T : Nat) (hA : A < G.nrules) :
+    ∃ b, (∀ fuel, G.nrules + 1 ≤ fuel → Impl.hasPath G A T fuel = .done b) ∧
+      (b = true ↔ Reach G A T) ∧
+      (reach G A).map (fun R => R.contains T) = some b := by
+  obtain ⟨b, h1, h2⟩ := Impl.hasPath_exact G hwf A T hA
+  refine ⟨b, h1, h2, ?_⟩
+  obtain ⟨R, hR⟩ := Total.reach_total G A
+  have h3 := has_path_spec G hwf A R hR T
+  rw [hR]
+  simp only [Option.map_some, Option.some.injEq]
+  cases b with
+  | true => simpa using h3.mpr (h2.mp rfl)
+  | false =>
+    cases hc : R.contains T with
+    | false => rfl
+    | true =>
+      have : T ∈ R := by simpa using hc
+      have := h2.mpr (h3.mp this)
+      cases this
+
+/-- a `from` that is not a rule index makes `has_path` panic (index out of bounds) -/
+theorem has_path_impl_out_of_range (G : Grammar) (A T fuel : Nat) (hA : ¬ A < G.nrules) :
+    Impl.hasPath G A T fuel = .panic := by
+  simp [Impl.hasPath, hA]
+
+/-- **the reference cost iteration converges** (the gap left by `reference_analyses_total`): for every
+well-formed grammar and every token-cost function the Bellman–Ford iteration `minCosts`, which is given
+`nrules + 2` rounds, reaches its fixed point — it never answers "fuel exhausted". (Proof: Knuth's
+generalisation of Dijkstra's algorithm, `Spec.dijkstra`, fixes at least one more rule per round, and by
+induction the `k`-th Bellman–Ford table contains the `k`-th Dijkstra table.) -/
+theorem reference_min_costs_total (G : Grammar) (hwf : G.wf = true) (tc : Nat → Nat) :
+    ∃ c, minCosts G tc = some c := by
+  obtain ⟨m, _, hm, _⟩ := minCosts_total G hwf tc
+  exact ⟨m, hm⟩
+
+/-- **`rule_min_costs` is exact and terminates.** For every well-formed grammar and every vector of token
+costs (one per token; zero costs allowed) let `c` be the reference table of minimal costs (`min_cost_exact`:
+`none` = the rule derives no sentence, `some v` = the least cost of a sentence it derives; it exists by
+`reference_min_costs_total`). If no sum the loop forms can overflow — `sumsFit`: in every production the
+costs of the symbols before the first rule deriving nothing add up to at most `u16::MAX`, rules counted
+with their minimal cost — then the model of `rule_min_costs` does not panic, needs at most `nrules + 1`
+rounds (every round but the last completes a rule), returns the same vector for every larger fuel, and the
+vector is `c` with `u16::MAX` for `none`. Without `sumsFit` the real code can panic although every minimal
+cost fits (finding C17-mincost-overflow-dearer-production); `sumsFit` is decidable and evaluated by the
+driver's model run implicitly (the model panics where the code does). -/
+theorem min_costs_impl_exact (G : Grammar) (hwf : G.wf = true) (tc : List Nat) (htc : tc.length = G.ntoks) :
+    ∃ c, minCosts G (Impl.tcF tc) = some c ∧
+      (Impl.sumsFit G (Impl.tcF tc) c = true →
+        ∀ fuel, G.nrules + 1 ≤ fuel → Impl.ruleMinCosts G tc fuel = .done (Impl.concr c)) := by
+  obtain ⟨m, hm, _, h⟩ := Impl.ruleMinCosts_exact G hwf tc htc
+  exact ⟨m, hm, h⟩
+
+/-- the same, spelled out: under `sumsFit` the vector `v` the model of `rule_min_costs` returns has, for
+every rule `r`, either `v[r] = u16::MAX` and `r` derives no sentence, or `v[r]` is the cost of a sentence `r`
+derives and no sentence `r` derives is cheaper. -/
+theorem min_costs_impl_meaning (G : Grammar) (hwf : G.wf = true) (tc : List Nat) (htc : tc.length = G.ntoks)
+    (c : List (Option Nat)) (hc : minCosts G (Impl.tcF tc) = some c)
+    (hfit : Impl.sumsFit G (Impl.tcF tc) c = true) :
+    ∃ v, (∀ fuel, G.nrules + 1 ≤ fuel → Impl.ruleMinCosts G tc fuel = .done v) ∧ v.length = G.nrules ∧
+      ∀ r, r < G.nrules →
+        (Impl.cget v r = Impl.U16MAX ∧ look c r = none ∧ ¬ ∃ w, Derives G (.rule r) w) ∨
+        (look c r = some (Impl.cget v r) ∧
+          (∃ w, Derives G (.rule r) w ∧ cost (Impl.tcF tc) w = Impl.cget v r) ∧
+          ∀ w, Derives G (.rule r) w → Impl.cget v r ≤ cost (Impl.tcF tc) w) := by
+  obtain ⟨m, hm, hmt, h⟩ := Impl.ruleMinCosts_exact G hwf tc htc
+  rw [hc] at hm
+  simp only [Option.some.injEq] at hm
+  subst hm
+  refine ⟨Impl.concr c, h hfit, by simp [Impl.concr, hmt.len], ?_⟩
+  intro r hr
+  have hex := min_cost_exact G hwf (Impl.tcF tc) c hc r hr
+  have hcg := Impl.cget_concr c r (by rw [hmt.len]; exact hr)
+  cases hl : look c r with
+  | none =>
+    left
+    rw [hl] at hcg
+    exact ⟨hcg, rfl, hex.1 hl⟩
+  | some x =>
+    right
+    rw [hl] at hcg
+    simp only [Option.getD_some] at hcg
+    rw [hcg]
+    exact ⟨rfl, hex.2 x hl⟩
+
+/-- **what `rule_max_costs` computes.** For every well-formed grammar in which every rule has a production
+(true of every `YaccGrammar`; without it the real loop never ends), every vector of token costs, in a
+release or a debug build (`dbg`): if the sums fit — `maxFits`, decidable: with rules counted at `maxUB` (the
+largest cost of a sentential form a rule derives without expanding a recursive rule; for a rule that
+reaches no recursive rule this is its maximal sentence cost), in every production of a rule that is not
+recursive the costs of the symbols before the first recursive rule add up to less than `u16::MAX` — then
+the model of `rule_max_costs` (as repaired by 290e7fe) does not panic — none of its three `debug_assert!`s
+fails either —, needs at most `nrules + 1` sweeps, returns the same vector `v` for every larger fuel, and
+for every rule `r`:
+* `v[r] = u16::MAX` (`max_sentence_cost` = `None`) exactly when `r` is recursive or reaches a recursive rule
+  (`Inf`) — this is the documented over-approximation of finding C17-maxcost-recursive: such a rule need
+  not derive arbitrarily expensive sentences (`A: A | 'a'`);
+* otherwise `v[r]` is the exact maximum: the cost of a sentence `r` derives, and no sentence `r` derives
+  costs more.
+So a finite answer is always the true maximum, and a rule whose sentences have unbounded cost is always
+answered `None` (`max_costs_impl_unbounded_none`). When `maxFits` fails for a production of a rule that
+reaches no recursive rule the real code panics by design ("Overflow occurred…" / "Unable to represent
+cost…"). -/
+theorem max_costs_impl_spec (G : Grammar) (hwf : G.wf = true) (hprods : Impl.everyRuleHasProd G = true)
+    (tc : List Nat) (htc : tc.length = G.ntoks) (hfit : Impl.maxFits G (Impl.tcF tc) = true) (dbg : Bool) :
+    ∃ v : List Nat, (∀ fuel, G.nrules + 1 ≤ fuel → Impl.ruleMaxCosts G tc dbg fuel = .done v) ∧
+      v.length = G.nrules ∧
+      ∀ r, r < G.nrules →
+        (Impl.cget v r = Impl.U16MAX ↔ Impl.Inf G r) ∧
+        (Impl.cget v r ≠ Impl.U16MAX →
+          (∃ w, Derives G (.rule r) w ∧ cost (Impl.tcF tc) w = Impl.cget v r) ∧
+          ∀ w, Derives G (.rule r) w → cost (Impl.tcF tc) w ≤ Impl.cget v r) :=
+  Impl.ruleMaxCosts_spec G hwf ((Impl.everyRuleHasProd_iff G).mp hprods) tc htc _
+    (Impl.maxCert_maxUB G hwf (Impl.tcF tc) hfit) dbg
+
+/-- the same with any bound table `U` that passes the certificate `maxCert` in place of `maxUB` (a table
+with smaller entries for the rules that reach a recursive rule can pass where `maxFits` fails) -/
+theorem max_costs_impl_spec_cert (G : Grammar) (hwf : G.wf = true) (hprods : Impl.everyRuleHasProd G = true)
+    (tc : List Nat) (htc : tc.length = G.ntoks) (U : Nat → Nat)
+    (hcert : Impl.maxCert G (Impl.tcF tc) U = true) (dbg : Bool) :
+    ∃ v : List Nat, (∀ fuel, G.nrules + 1 ≤ fuel → Impl.ruleMaxCosts G tc dbg fuel = .done v) ∧
+      v.length = G.nrules ∧
+      ∀ r, r < G.nrules →
+        (Impl.cget v r = Impl.U16MAX ↔ Impl.Inf G r) ∧
+        (Impl.cget v r ≠ Impl.U16MAX →
+          (∃ w, Derives G (.rule r) w ∧ cost (Impl.tcF tc) w = Impl.cget v r) ∧
+          ∀ w, Derives G (.rule r) w → cost (Impl.tcF tc) w ≤ Impl.cget v r) :=
+  Impl.ruleMaxCosts_spec G hwf ((Impl.everyRuleHasProd_iff G).mp hprods) tc htc U hcert dbg
+
+/-- under the hypotheses of `max_costs_impl_spec`: a rule that derives sentences of unbounded cost is
+answered `u16::MAX` (`None`) -/
+theorem max_costs_impl_unbounded_none (G : Grammar) (hwf : G.wf = true)
+    (hprods : Impl.everyRuleHasProd G = true) (tc : List Nat) (htc : tc.length = G.ntoks)
+    (hfit : Impl.maxFits G (Impl.tcF tc) = true) (dbg : Bool) (v : List Nat)
+    (hv : Impl.ruleMaxCosts G tc dbg (Impl.maxCostsFuel G) = .done v) (r : Nat) (hr : r < G.nrules)
+    (hunb : ∀ b, ∃ w, Derives G (.rule r) w ∧ b < cost (Impl.tcF tc) w) :
+    Impl.cget v r = Impl.U16MAX := by
+  obtain ⟨v', h1, _, h3⟩ := max_costs_impl_spec G hwf hprods tc htc hfit dbg
+  have := h1 (Impl.maxCostsFuel G) (Nat.le_refl _)
+  rw [hv] at this
+  simp only [Impl.Outcome.done.injEq] at this
+  subst this
+  apply Classical.byContradiction
+  intro hne
+  obtain ⟨w, hw, hlt⟩ := hunb (Impl.cget v r)
+  have := ((h3 r hr).2 hne).2 w hw
+  omega
+
+/-- **`min_sentence` is sound.** For every well-formed grammar and vector of token costs, with `c` the
+reference table of minimal costs: if no sum of `rule_min_costs` overflows (`sumsFit`, as in
+`min_costs_impl_exact`), then for every rule `r` whose minimal cost `x` is below `u16::MAX` (the rules for
+which a minimal sentence exists and `min_sentence_cost` does not answer `u16::MAX`) the model of
+`min_sentence(r)` never panics, and whenever it returns — the `while` loop ends within the given fuel —
+the sentence `w` it returns is derived by `r` and costs exactly `x`, i.e. `min_sentence_cost(r)`. (It does
+not always return: `min_sentence_impl_terminates_iff` says exactly when.) -/
+theorem min_sentence_impl_sound (G : Grammar) (hwf : G.wf = true) (tc : List Nat) (htc : tc.length = G.ntoks)
+    (c : List (Option Nat)) (hc : minCosts G (Impl.tcF tc) = some c)
+    (hfit : Impl.sumsFit G (Impl.tcF tc) c = true) (r x : Nat) (hr : r < G.nrules)
+    (hx : look c r = some x) (hlt : x < Impl.U16MAX) (fuel : Nat) :
+    Impl.minSentence G tc r fuel ≠ .panic ∧
+    ∀ w, Impl.minSentence G tc r fuel = .done w → Derives G (.rule r) w ∧ cost (Impl.tcF tc) w = x := by
+  obtain ⟨m, hm, hmt, h⟩ := Impl.ruleMinCosts_exact G hwf tc htc
+  rw [hc] at hm
+  simp only [Option.some.injEq] at hm
+  subst hm
+  have hmc := h hfit (Impl.minCostsFuel G) (Nat.le_refl _)
+  have hs := Impl.minSentenceWith_sound G hwf tc c htc hmt hr hx hlt fuel
+  unfold Impl.minSentence
+  rw [hmc]
+  simp only []
+  cases hres : Impl.minSentenceWith G tc (some (Impl.concr c)) r fuel with
+  | panic => rw [hres] at hs; exact hs.elim
+  | fuelOut => exact ⟨(by intro h; cases h), (by intro w h; cases h)⟩
+  | done w =>
+    rw [hres] at hs
+    refine ⟨(by intro h; cases h), ?_⟩
+    intro w' hw'
+    cases hw'
+    exact hs
+
+/-- **on which grammars `min_sentence` returns** (the exact extent of finding C17-minsent-tight-cycle).
+Under the hypotheses of `min_sentence_impl_sound`, let `tightInf r` be the decidable predicate "in the
+graph that joins every rule to the rules of the production `cheapest_prod` returns for it, `r` is or reaches
+a rule that reaches itself" (`Impl.tightInf`: the verified reference reachability on the grammar `tightG`
+that keeps exactly these productions). Then
+* if `tightInf r` is false the model of `min_sentence(r)` returns, within `minSentenceFuel` iterations of
+  its `while` loop (a bound that only depends on the number of rules and the longest production) and with
+  the same sentence for every larger fuel — a sentence derived by `r` at cost `min_sentence_cost(r)` by
+  `min_sentence_impl_sound`;
+* if `tightInf r` is true the model runs out of every fuel: the real `min_sentence(r)` does not return
+  (the stack of frames need not even grow: `A: A | 'a'`). -/
+theorem min_sentence_impl_terminates_iff (G : Grammar) (hwf : G.wf = true) (tc : List Nat)
+    (htc : tc.length = G.ntoks) (c : List (Option Nat)) (hc : minCosts G (Impl.tcF tc) = some c)
+    (hfit : Impl.sumsFit G (Impl.tcF tc) c = true) (r x : Nat) (hr : r < G.nrules)
+    (hx : look c r = some x) (hlt : x < Impl.U16MAX) :
+    (Impl.tightInf G tc (some (Impl.concr c)) r = false →
+      ∃ w, ∀ fuel, Impl.minSentenceFuel G ≤ fuel → Impl.minSentence G tc r fuel = .done w) ∧
+    (Impl.tightInf G tc (some (Impl.concr c)) r = true →
+      ∀ fuel, Impl.minSentence G tc r fuel = .fuelOut) := by
+  obtain ⟨m, hm, hmt, h⟩ := Impl.ruleMinCosts_exact G hwf tc htc
+  rw [hc] at hm
+  simp only [Option.some.injEq] at hm
+  subst hm
+  have hmc := h hfit (Impl.minCostsFuel G) (Nat.le_refl _)
+  have hunf : ∀ fuel, Impl.minSentence G tc r fuel = Impl.minSentenceWith G tc (some (Impl.concr c)) r fuel := by
+    intro fuel; unfold Impl.minSentence; rw [hmc]
+  constructor
+  · intro hti
+    have hni : ¬ Impl.Inf (Impl.tightG G tc (some (Impl.concr c))) r := by
+      intro hinf
+      rw [(Impl.tightInf_iff G tc _ hwf r).mpr hinf] at hti
+      cases hti
+    obtain ⟨w, hw⟩ := Impl.minSentenceWith_terminates G hwf tc c htc hmt hr hx hlt hni
+    exact ⟨w, fun fuel hf => by rw [hunf]; exact hw fuel hf⟩
+  · intro hti fuel
+    have hinf := (Impl.tightInf_iff G tc _ hwf r).mp hti
+    have hs := Impl.minSentenceWith_sound G hwf tc c htc hmt hr hx hlt fuel
+    rw [hunf]
+    cases hres : Impl.minSentenceWith G tc (some (Impl.concr c)) r fuel with
+    | panic => rw [hres] at hs; exact hs.elim
+    | fuelOut => rfl
+    | done w => exact absurd hres (Impl.minSentenceWith_diverges G tc _ hinf fuel w)
+
 /-! ### non-vacuity (tests) -/
 
 /-- `^: S; S: A B 'c'; A: 'a' | ; B: 'b' | ;` tokens a=0 b=1 c=2 eof=3; rules ^=0 S=1 A=2 B=3 -/
@@ -177,5 +420,33 @@ example : ((analyses exG).map (fun a => a.follow.contains (2, 2))) = some true :
 example : minCosts exG (fun _ => 1) = some [some 1, some 1, some 0, some 0] := by decide
 example : (match Impl.firstsNew exG (Impl.firstsFuel exG) with
     | .done f => some f.epsilons | _ => none) = some [false, false, true, true] := by decide
+
+/-- `exG` with unit token costs: the hypotheses of the theorems about the cost loops hold -/
+example : Impl.everyRuleHasProd exG = true := by decide
+example : Impl.sumsFit exG (Impl.tcF [1, 1, 1, 1]) [some 1, some 1, some 0, some 0] = true := by decide
+example : Impl.maxCert exG (Impl.tcF [1, 1, 1, 1]) (fun r => [3, 3, 1, 1].getD r 0) = true := by decide
+example : Impl.maxFits exG (Impl.tcF [1, 1, 1, 1]) = true := by decide
+example : (List.range 4).map (Impl.maxUB exG (Impl.tcF [1, 1, 1, 1])) = [3, 3, 1, 1] := by decide
+example : Impl.ruleMinCosts exG [1, 1, 1, 1] (Impl.minCostsFuel exG) = .done [1, 1, 0, 0] := by decide
+example : Impl.ruleMaxCosts exG [1, 1, 1, 1] true (Impl.maxCostsFuel exG) = .done [3, 3, 1, 1] := by decide
+example : Impl.hasPath exG 0 3 (Impl.hasPathFuel exG) = .done true := by decide
+example : Impl.hasPath exG 2 2 (Impl.hasPathFuel exG) = .done false := by decide
+example : Impl.minSentence exG [1, 1, 1, 1] 0 50 = .done [2] := by decide
+
+/-- `^: A; A: A | 'a'` (finding C17-maxcost-recursive): the model answers `u16::MAX` for both rules although
+the maximum is 1 -/
+def exRec : Grammar :=
+  { ntoks := 2, nrules := 2, eof := 1, startProd := 0, prods := [(0, [.rule 1]), (1, [.rule 1]), (1, [.tok 0])] }
+example : Impl.ruleMaxCosts exRec [1, 1] true (Impl.maxCostsFuel exRec) = .done [65535, 65535] := by decide
+/-- … and `min_sentence` runs out of any fuel on it (finding C17-minsent-tight-cycle) -/
+example : Impl.minSentence exRec [1, 1] 1 200 = .fuelOut := by decide
+example : Impl.tightInf exRec [1, 1] (some [1, 1]) 1 = true := by decide
+example : Impl.tightInf exG [1, 1, 1, 1] (some [1, 1, 0, 0]) 0 = false := by decide
+example : Impl.minSentenceFuel exG = 485 := by decide
+
+/-- a rule without productions (excluded by `everyRuleHasProd`): the sweeps of `rule_max_costs` never end -/
+def exNoProd : Grammar :=
+  { ntoks := 1, nrules := 2, eof := 0, startProd := 0, prods := [(0, [.tok 0])] }
+example : Impl.ruleMaxCosts exNoProd [1] true 40 = .fuelOut := by decide
 
 end GrmVerif.C17
